@@ -61,7 +61,7 @@ type kitServeCfg struct {
 	// NoAutoMTLS: behave like a plugin that does not implement AutoMTLS (built against an old go-plugin, or
 	// not written in Go): ignore PLUGIN_CLIENT_CERT — no certificate in the handshake line, plaintext listener
 	NoAutoMTLS bool `json:"no_auto_mtls,omitempty"`
-	// PreServe: "" | "exit:<code>" | "sleep:<ms>" | "print:<hex bytes>" (then continue) | "printexit:<hex>" | "printhang:<hex>"
+	// PreServe: "" | "exit:<code>" | "sleep:<ms>" | "print:<hex bytes>" (then continue) | "printexit:<hex>" | "printhang:<hex>" | "closehang:<hex>"
 	PreServe string `json:"pre_serve,omitempty"`
 }
 
@@ -113,6 +113,12 @@ func pluginKit(args []string) {
 		os.Exit(0)
 	case hasPrefix(cfg.PreServe, "printhang:"):
 		os.Stdout.Write(unhx(cfg.PreServe[10:]))
+		time.Sleep(time.Hour)
+	case hasPrefix(cfg.PreServe, "closehang:"):
+		// writes the bytes, CLOSES both standard streams and stays alive (a daemon-style start that went wrong)
+		os.Stdout.Write(unhx(cfg.PreServe[10:]))
+		os.Stdout.Close()
+		os.Stderr.Close()
 		time.Sleep(time.Hour)
 	case hasPrefix(cfg.PreServe, "print:"):
 		os.Stdout.Write(unhx(cfg.PreServe[6:]))
